@@ -118,6 +118,9 @@ def cases(tier, seed):
     for n in (2, 4, 8):
         for si in range(4):
             out.append({"key": f"hermflat/n={n}/s={si}", "grp": "hermflat", "m": n, "n": n, "si": si})
+    # one "flat" line (many entries of moderate modulus: largest modulus SUM) against one "spiky" line (few large entries: largest ENERGY)
+    for (m, n) in ((2, 12), (3, 40), (12, 2), (40, 3), (4, 9)):
+        out.append({"key": f"flatspiky/{m}x{n}", "grp": "flatspiky", "m": m, "n": n})
     # matrices whose dominant singular direction is quaternion-orthogonal to a canonical fixed probe vector, the probe being the second one
     for (m, n) in ((5, 4), (4, 5), (6, 6)):
         out.append({"key": f"probe/{m}x{n}", "grp": "probe", "m": m, "n": n})
@@ -173,6 +176,8 @@ def run_case(case, seed):
                     ("quat_frobenius_norm", lambda: u.quat_frobenius_norm(Aq), expF, 16 * O.U * 4 * m * n * expF),
                     ("quat_frobenius_norm(sparse)", lambda: u.quat_frobenius_norm(to_sparse(lib, A)), expF, 16 * O.U * 4 * m * n * expF),
                     ("matrix_norm(sparse,'fro')", lambda: u.matrix_norm(to_sparse(lib, A), "fro"), expF, 16 * O.U * 4 * m * n * expF),
+                    ("matrix_norm(sparse,'F')", lambda: u.matrix_norm(to_sparse(lib, A), "F"), expF, 16 * O.U * 4 * m * n * expF),
+                    ("matrix_norm(sparse,None)", lambda: u.matrix_norm(to_sparse(lib, A)), expF, 16 * O.U * 4 * m * n * expF),
                     ("normQ", lambda: u.normQ(Aq), expF, 16 * O.U * 4 * m * n * expF),
                     ("normQsparse", lambda: u.normQsparse(*comps(A)), expF, 16 * O.U * 4 * m * n * expF),
                     ("normQsparse(sp)", lambda: u.normQsparse(*[sp.csr_matrix(c) for c in comps(A)]), expF, 16 * O.U * 4 * m * n * expF),
@@ -288,7 +293,7 @@ def run_case(case, seed):
                     for key in ("fro", "1", "inf", "2"):
                         if not nabc[key] <= na[key] * nb[key] * ncc[key] * (1 + 1e-12) + 1e-300:
                             fails.append(fail("submultiplicative3", f"ord={key}", ord=key, grp="sub"))
-    elif grp in ("large", "compmask", "xf", "hermflat", "probe"):
+    elif grp in ("large", "compmask", "xf", "hermflat", "probe", "flatspiky"):
         m, n = case["m"], case["n"]
         mats_ = []
         if grp == "large":
@@ -302,6 +307,18 @@ def run_case(case, seed):
         elif grp == "xf":
             for nm_ in xf_names(m, n):
                 mats_.append(xf_build(nm_, m, n, fill))
+        elif grp == "flatspiky":
+            wide = n >= m
+            L = max(m, n)
+            for spike in (1, 2):
+                Aw = np.zeros((min(m, n), L, 4))
+                for j in range(L):
+                    Aw[0, j] = G.SIGNED_UNITS[(3 * j + 1) % 8].astype(float)  # flat line: L entries of modulus 1 -> sum L, energy L
+                for t in range(spike):
+                    Aw[1, (5 * t + 2) % L] = np.array([1.0, 1.0, 1.0, 1.0]) * (0.45 * L / spike)  # spiky line: sum 0.9 L, energy >> L
+                for i in range(2, min(m, n)):
+                    Aw[i, (i * 3) % L, 2] = 0.5
+                mats_.append(Aw if wide else np.ascontiguousarray(O.qH(Aw)))
         elif grp == "probe":
             for side in ("right", "left"):
                 N_ = n if side == "right" else m
